@@ -38,7 +38,7 @@ type KnownFinding struct {
 	Property string `json:"property"`
 	Rule     string `json:"rule"`
 	Key      string `json:"key"`
-	What     string `json:"what"`            // what fails (failing input / call site)
+	What     string `json:"what"`             // what fails (failing input / call site)
 	Status   string `json:"status,omitempty"` // "" = open finding; "fixed" = repaired, suppresses nothing
 	Commit   string `json:"commit,omitempty"`
 }
@@ -123,13 +123,13 @@ func newReport(prop, tier string) *Report {
 	return r
 }
 
-func (r *Report) Fatal(msg string)            { r.fatal = append(r.fatal, msg) }
-func (r *Report) Note(f string, a ...any)     { r.notes = append(r.notes, fmt.Sprintf(f, a...)) }
-func (r *Report) Assume(s ...string)          { r.assume = append(r.assume, s...) }
-func (r *Report) Trusted(s ...string)         { r.trusted = append(r.trusted, s...) }
-func (r *Report) Explain(f string, a ...any)  { r.explain = append(r.explain, fmt.Sprintf(f, a...)) }
-func (r *Report) Floor(rule string, n int)    { r.floors[rule] = n }
-func (r *Report) Extra(k string, v any)       { r.extra[k] = v }
+func (r *Report) Fatal(msg string)           { r.fatal = append(r.fatal, msg) }
+func (r *Report) Note(f string, a ...any)    { r.notes = append(r.notes, fmt.Sprintf(f, a...)) }
+func (r *Report) Assume(s ...string)         { r.assume = append(r.assume, s...) }
+func (r *Report) Trusted(s ...string)        { r.trusted = append(r.trusted, s...) }
+func (r *Report) Explain(f string, a ...any) { r.explain = append(r.explain, fmt.Sprintf(f, a...)) }
+func (r *Report) Floor(rule string, n int)   { r.floors[rule] = n }
+func (r *Report) Extra(k string, v any)      { r.extra[k] = v }
 
 // Add records an obligation. Obligations with the same (rule,key) are merged:
 // the worst verdict wins and Sites is summed.
@@ -181,7 +181,9 @@ func (r *Report) Discharge(rule, prefix, by string) int {
 }
 
 // OK / Bad are shorthands.
-func (r *Report) OK(rule, key, at, by string) { r.Add(Ob{Rule: rule, Key: key, At: at, Verdict: Discharged, By: by}) }
+func (r *Report) OK(rule, key, at, by string) {
+	r.Add(Ob{Rule: rule, Key: key, At: at, Verdict: Discharged, By: by})
+}
 func (r *Report) Bad(rule, key, at, detail string) {
 	r.Add(Ob{Rule: rule, Key: key, At: at, Verdict: Violation, Detail: detail})
 }
@@ -318,16 +320,22 @@ func (r *Report) finish() int {
 		samples = samples[:40]
 	}
 	cov := map[string]any{
-		"explanation":   strings.Join(r.explain, " "),
-		"exhaustive":    true,
-		"rules":         rs,
-		"obligations":   total,
-		"discharged":    disch,
-		"known_findings": func() int { n := 0; for _, v := range stats { n += v.Known }; return n }(),
-		"samples":       samples,
-		"trusted_base":  r.trusted,
-		"notes":         r.notes,
-		"checker_cmd":   fmt.Sprintf("bin/imverif check %s --tier %s", r.Prop, r.Tier),
+		"explanation": strings.Join(r.explain, " "),
+		"exhaustive":  true,
+		"rules":       rs,
+		"obligations": total,
+		"discharged":  disch,
+		"known_findings": func() int {
+			n := 0
+			for _, v := range stats {
+				n += v.Known
+			}
+			return n
+		}(),
+		"samples":      samples,
+		"trusted_base": r.trusted,
+		"notes":        r.notes,
+		"checker_cmd":  fmt.Sprintf("bin/imverif check %s --tier %s", r.Prop, r.Tier),
 		"violation_keys": func() []string {
 			var ks []string
 			for _, o := range viol {
